@@ -15,7 +15,7 @@ CONSTANTS MaxSteps, MaxIdx, Watch, Ms
 VARIABLES s, steps, jumped, last
 vars == <<s, steps, jumped, last>>
 
-cfg  == [net |-> "bitcoin", wt |-> "segwit", acct |-> 0, ms |-> Ms, cos |-> 1, watch |-> Watch]
+cfg  == [net |-> "bitcoin", wt |-> "segwit", acct |-> 0, ms |-> Ms, cos |-> 1, watch |-> Watch, kwt |-> "legacy"]
 cfgP == [cfg EXCEPT !.watch = FALSE]
 Wts  == {"segwit", "legacy"}
 Chains == {Chain("bitcoin", w, x, c) : w \in Wts, x \in 0..1, c \in 0..1}
@@ -68,6 +68,8 @@ AddressesDistinct == PathsDistinct(cfg, s.keys) /\ \A p \in s.keys : Shape(cfg, 
 \* a watch-only wallet holds keys of its own account only, at the same path below the account key as the full wallet
 WatchOnlyOwnAccount == Watch => \A p \in s.keys : /\ Own(cfg, p)
                                                    /\ PosTokens(cfg, p) = <<UpperM>> \o SubSeq(PosTokens(cfgP, p), 5, 6)
+\* the caller's key object is an input: no request changes what it says about itself
+ObjectUntouched == s.obj = [wt |-> cfg.kwt, net |-> cfg.net]
 \* ---- action properties
 \* a fresh key never repeats an issued index
 NoRepeat == [][(last'.a.op = "new_keys" /\ last'.ok) => \A i \in 1..Len(last'.out) : last'.out[i] \notin s.keys]_vars
